@@ -45,10 +45,10 @@ var frontStmts = []frontStmt{
 	{"BEGIN COUNTER BATCH UPDATE ks.t SET c = c + 1 WHERE k = '%s' APPLY BATCH", true},
 	{"TRUNCATE ks.t -- '%s'", true},
 	{"garbage '%s' that does not parse (", true},
-	{"SELECT * FROM system.local", false},
-	{"SELECT key FROM local", false},
-	{"select peer from PEERS", false},
-	{"SELECT * FROM system.peers_v2", false},
+	{"SELECT * FROM system.local WHERE key = '%s'", true},
+	{"SELECT key FROM local WHERE key = '%s'", true},
+	{"select peer from PEERS where peer = '%s'", true},
+	{"SELECT * FROM system.peers_v2 WHERE peer = '%s'", true},
 	{"SELECT * FROM myks.local WHERE key = '%s'", true},
 	{"USE myks", false},
 }
@@ -63,8 +63,6 @@ var frontPrepared = []string{
 }
 
 var frontForeign = []string{"INSERT INTO ks.t2 (k, v) VALUES (?, ?)", "SELECT v FROM ks.t2 WHERE k = ?"}
-
-func init() { props["FRONT"] = frontPhase }
 
 func frontPhase(ctx *Ctx) {
 	r := ctx.Rng
@@ -166,6 +164,7 @@ func frontPhase(ctx *Ctx) {
 			var msg message.Message
 			kind := ""
 			prepIDHex := ""
+			matchText := "" // a statement that carries no token is recognised at the backend by its text
 			val := func() []*primitive.Value {
 				return []*primitive.Value{primitive.NewValue([]byte("tok:" + tok)), primitive.NewValue([]byte{0, 0, 0, 1})}
 			}
@@ -175,6 +174,8 @@ func frontPhase(ctx *Ctx) {
 				text := st.text
 				if st.token {
 					text = fmt.Sprintf(st.text, "tok:"+tok)
+				} else {
+					matchText = text
 				}
 				msg = &message.Query{Query: text, Options: &message.QueryOptions{Consistency: cons}}
 				kind = "query"
@@ -246,7 +247,9 @@ func frontPhase(ctx *Ctx) {
 				switch {
 				case kind == "prepare" && x.Kind == "prepare" && x.PreparedID == prepIDHex:
 					recs = append(recs, x)
-				case kind != "prepare" && x.Token == tok && (x.Kind == "query" || x.Kind == "execute" || x.Kind == "batch"):
+				case kind != "prepare" && matchText == "" && x.Token == tok && (x.Kind == "query" || x.Kind == "execute" || x.Kind == "batch"):
+					recs = append(recs, x)
+				case kind == "query" && matchText != "" && (x.Kind == "query" || x.Kind == "use" || x.Kind == "system") && bytes.Contains(x.Raw, []byte(matchText)):
 					recs = append(recs, x)
 				}
 			}
@@ -264,6 +267,9 @@ func frontPhase(ctx *Ctx) {
 				out = hv.L(hv.I(1))
 			default:
 				out = hv.L(hv.I(9))
+			}
+			if q, ok := msg.(*message.Query); ok && len(q.Query) >= 4 && (q.Query[:4] == "USE " || q.Query[:4] == "use ") {
+				closed = true // the statement changed this connection's keyspace: start the client afresh
 			}
 			if closed {
 				cl.Close()
